@@ -165,9 +165,81 @@ def run_codec(c, rng):
     return None, None
 
 
-def replay(cases, seed):
+class MutableLeg:
+    """The same cases through the mutable path: a real MDMF publish (Publish segment / tail encoders) on a grid of n
+    servers, all shares but the Spec's k removed, a real Retrieve (its segment / tail decoders and trimming) reads the file
+    and every segment back.  One grid per (k, n)."""
+    def __init__(self):
+        self.grids = {}
+
+    def grid(self, k, n):
+        from grid import Grid
+        if (k, n) not in self.grids:
+            self.grids[(k, n)] = Grid(num_servers=n, k=k, n=n, happy=1, seed=1000 * k + n)
+        return self.grids[(k, n)]
+
+    def close(self):
+        for g in self.grids.values():
+            g.close()
+
+    def run(self, c, rng):
+        import os
+        import allmydata.mutable.publish as publish
+        from allmydata.mutable.publish import MutableData
+        from allmydata.interfaces import MDMF_VERSION
+        from allmydata.util.consumer import MemoryConsumer
+        k, n, seg, size = c["k"], c["n"], c["seg"], c["size"]
+        g = self.grid(k, n)
+        data = bytes(rng.randrange(1, 256) for _ in range(size))
+        saved = publish.DEFAULT_MUTABLE_MAX_SEGMENT_SIZE
+        publish.DEFAULT_MUTABLE_MAX_SEGMENT_SIZE = seg
+        try:
+            node = g.run(g.nodemaker.create_mutable_file(MutableData(data), version=MDMF_VERSION))
+        finally:
+            publish.DEFAULT_MUTABLE_MAX_SEGMENT_SIZE = saved
+        placed = sorted(sh for srv, shares in g.shares(node.get_storage_index()).items() for sh in shares)
+        if placed != list(range(n)):
+            return "mutable:shares_placed", {"real": placed}
+        for srv, shares in g.shares(node.get_storage_index()).items():
+            for sh, path in shares.items():
+                if sh not in c["order"]:
+                    os.unlink(path)
+        reader = g.make_nodemaker().create_from_cap(node.get_readonly_uri())
+        ver = g.run(reader.get_best_readable_version())
+        got = g.run(reader.download_best_version())
+        if got != data:
+            return "mutable:decode:file", {"real_len": len(got), "spec_len": size, "first_difference": next((i for i in range(min(len(got), size)) if got[i] != data[i]), min(len(got), size))}
+        for s, sd in enumerate(c["segs"]):
+            mc = MemoryConsumer()
+            g.run(ver.read(mc, sd["off"], sd["len"]))
+            part = b"".join(mc.chunks)
+            if part != data[sd["off"]:sd["off"] + sd["len"]]:
+                return ("mutable:decode:tail_segment" if sd["tail"] else "mutable:decode:segment"), {"segment": s, "real_len": len(part), "spec_len": sd["len"]}
+        return None, None
+
+
+def replay(cases, seed, mutable_every=0):
     mism = []
-    stats = {"file": 0, "codec": 0, "segments": 0, "tail_padded_cases": 0, "max_n": 0}
+    stats = {"file": 0, "codec": 0, "segments": 0, "tail_padded_cases": 0, "max_n": 0, "mutable": 0, "mutable_segments": 0, "mutable_tail_fills_segment": 0}
+    ml = MutableLeg()
+    nfile = 0
+    for ci, c in enumerate(cases):
+        if mutable_every and c["kind"] == "file" and c["n"] <= 7:
+            nfile += 1
+            # every case whose padded tail is as large as a full segment (one decoder object serves both), and a stride of the rest
+            special = c["num_segments"] > 1 and c["tail_padded"] == c["seg"] and c["tail_padded"] != c["tail_size"]
+            if (special and nfile % max(1, mutable_every // 6) == 0) or nfile % mutable_every == 0:
+                rng = random.Random("c36-mut-%d-%d" % (seed, ci))
+                try:
+                    kind, detail = ml.run(c, rng)
+                except Exception as e:
+                    kind, detail = "mutable:exception:" + type(e).__name__, repr(e)[:500]
+                stats["mutable"] += 1
+                stats["mutable_segments"] += len(c["segs"])
+                stats["mutable_tail_fills_segment"] += bool(special)
+                if kind:
+                    mism.append({"kind": kind, "detail": detail, "case": c} if len(mism) < 40 else {"kind": kind})
+    ml.close()
     for ci, c in enumerate(cases):
         rng = random.Random("c36-%d-%d" % (seed, ci))
         stats[c["kind"]] += 1
@@ -193,9 +265,10 @@ def main():
     ap.add_argument("--in", dest="inp")
     ap.add_argument("--seed", type=int, default=0)
     ap.add_argument("--tier", default="quick")
+    ap.add_argument("--mutable-every", type=int, default=0)
     a = ap.parse_args()
     with open(a.inp) as f:
-        out = replay(json.load(f), a.seed)
+        out = replay(json.load(f), a.seed, a.mutable_every)
     with open(a.out, "w") as f:
         json.dump(out, f)
 
